@@ -2,45 +2,13 @@
   L0 (structural) facts about the GENERATED model of EfficiencyRatio, valid for every
   `[Scalar F]` (no law about the arithmetic is used).
 -/
+import TaRs.Lemmas.Core.EfficiencyRatio
 import TaRs.Gen.EfficiencyRatio
 import TaRs.Lemmas.RsLemmas
 namespace TaRs.Gen.EfficiencyRatio
 open TaRs TaRs.Rs
 
 variable {F : Type} [Scalar F]
-
-/-- the state `new(period)` builds -/
-def fresh (p : Nat) : EfficiencyRatio F :=
-  { period := p, index := 0, count := 0, deque := Array.replicate p (Scalar.lit 0 0) }
-
-/-- structural well-formedness: everything `next`/`reset` need in order not to panic.
-    Besides the usual window facts, `&self.deque[self.index..self.count]` is evaluated AFTER
-    the cursor and the count were advanced, so it needs `index' ≤ count'`; while the window is
-    still filling this only holds because the cursor equals the count (`fill`).  A state with
-    `count < period` and `index > count` (reachable only through deserialisation) makes
-    `next` panic with "slice index starts at .. but ends at ..". -/
-structure WF (s : EfficiencyRatio F) : Prop where
-  pos : 0 < s.period
-  small : s.period * 8 ≤ isizeMax
-  size : s.deque.size = s.period
-  idx : s.index < s.period
-  cnt : s.count ≤ s.period
-  fill : s.count < s.period → s.index = s.count
-
-theorem new_eq (p : Nat) :
-    (new p : Res (EfficiencyRatio F)) =
-      if p = 0 then .err .InvalidParameter
-      else if p * 8 ≤ isizeMax then .ok (fresh p) else .panic := by
-  unfold new
-  cases p with
-  | zero => rfl
-  | succ n =>
-    by_cases h : (n + 1) * 8 ≤ isizeMax
-    · simp [vecNew_eq _ _ h, h, fresh, bind, Res.bind]
-    · simp [vecNew_none _ _ (by omega : isizeMax < (n + 1) * 8), h, bind, Res.bind]
-
-theorem fresh_wf (p : Nat) (hp : 0 < p) (h8 : p * 8 ≤ isizeMax) : WF (fresh p : EfficiencyRatio F) :=
-  ⟨hp, h8, by simp [fresh], hp, by simp [fresh], by simp [fresh]⟩
 
 /-- one iteration of either `for n in ..` loop: `(volatility, previous)` ↦ `(volatility + |previous - n|, n)` -/
 def volStep (acc : F × F) (n : F) : F × F :=
@@ -137,7 +105,5 @@ theorem next_none_of_gap (s : EfficiencyRatio F) (x : F)
 theorem nextBar_eq (s : EfficiencyRatio F) (b : Bar F) : s.nextBar b = s.next b.close := by
   unfold nextBar
   cases h : s.next b.close <;> simp
-
-theorem period_fn_eq (s : EfficiencyRatio F) : s.period_fn = s.period := rfl
 
 end TaRs.Gen.EfficiencyRatio
